@@ -414,7 +414,7 @@ func (g *gen) families(a *Args, rng *Rng, emit func(*hcase), deferCase func(mk f
 	}
 
 	// F. random histories
-	nRand := 1100
+	nRand := 950
 	if thorough {
 		nRand = 16000
 	}
